@@ -57,7 +57,13 @@ pub fn run(args: &Args) {
             cpu.regs.set_sp(0xBFF0);
             cpu.regs.set_iff1(false);
         }
-        out.ev(json!({"ev":"reset","m": if m128 {128} else {48}}));
+        // half of the machines carry a host device that claims exactly port 0x00FE (the program then uses the other even
+        // ports): the border of a loaded snapshot is the file's all the same - a load is not a port write
+        let ext = mi % 4 >= 2;
+        if ext {
+            emu.set_io_extender(VExt::new(vec![(0xFFFF, 0x00FE)], 0x5A));
+        }
+        out.ev(json!({"ev":"reset","m": if m128 {128} else {48},"ext":ext}));
         // "or the border stored in the last loaded snapshot": SZX files keep the border (chBorder) apart from the last value
         // written to port 0xFE (chFe); whatever chFe says, the reported colour is the stored border - right after the
         // load and two frames later (the picture is not judged here)
@@ -77,14 +83,19 @@ pub fn run(args: &Args) {
             let at_once = emu.border_color() as u8;
             finish_frame(&mut emu);
             finish_frame(&mut emu);
-            out.ev(json!({"ev":"szxreport","border":b,"fe":fe,"at_once":at_once,"later":emu.border_color() as u8}));
+            // ... and the frame completed after the load shows it over the whole top and bottom border
+            let painted: std::collections::BTreeSet<u8> = {
+                let fb = emu.border_buffer();
+                (0..fb.h).filter(|y| *y < 20 || *y + 20 >= fb.h).flat_map(|y| fb.px[y * fb.w..(y + 1) * fb.w].iter().map(|c| *c as u8).collect::<Vec<u8>>()).collect()
+            };
+            out.ev(json!({"ev":"szxreport","border":b,"fe":fe,"at_once":at_once,"later":emu.border_color() as u8,"painted":painted}));
         }
         poke_bytes(&mut emu, CODE, &[0xED, 0x79, 0x18, 0xFE]);
         // first frame: a write establishes the colour the next one starts with (before any write or
         // snapshot the statement defines no colour)
         {
             let cpu = emu.verif_cpu();
-            cpu.regs.set_bc(0x00FE);
+            cpu.regs.set_bc(if ext { 0x01FE } else { 0x00FE });
             cpu.regs.set_acc(r.u8());
             cpu.regs.set_pc(CODE);
         }
@@ -151,6 +162,7 @@ pub fn run(args: &Args) {
                 // including the ones that select the 128K paging latch or the AY as well (the written value then also
                 // pages memory - the program lives in bank 2 with interrupts off - or programs the AY)
                 let port = if r.chance(1, 2) { *r.pick(&[0x00FEu16, 0x10FE, 0xBEFE, 0xFFFE]) } else { r.u16() & 0xFFFE };
+                let port = if ext && port == 0x00FE { 0x01FE } else { port };
                 let t0 = emu.verif_frame_clocks();
                 {
                     let cpu = emu.verif_cpu();
